@@ -928,6 +928,8 @@ def r6(ctx):
     names = [e.id for e in un[0].ast.targets[0].elts] if un and isinstance(un[0].ast.targets[0], ast.Tuple) else []
     cons = dec.calls("ControlStatusSubHeader")
     assoc = {k: norm_text(v) for k, v in ctor_fields(ctx.repo, m, cons[0][1]).items()} if cons else {}
+    if "*" in assoc and un and isinstance(un[0].ast.targets[0], ast.Name) and assoc["*"] == un[0].ast.targets[0].id and len(dec.defs_reaching(assoc["*"], cons[0][0])) == 1:
+        assoc["*"] = norm_text(un[0].ast.value)  # the unpacked tuple held in a local bound once
     if "*" in assoc and assoc["*"].endswith("_SUB_HEADER_STRUCT.unpack_from(" + dec.params[1] + ")"):
         # ControlStatusSubHeader(*unpack_from(buffer)): slot i goes to the i-th dataclass field
         names = [f"#slot{i}" for i in range(len(fields))]
